@@ -171,6 +171,31 @@ func runLatencyStats(c *Ctx) {
 		if !strings.HasPrefix(q, "latency.") {
 			return
 		}
+		// a whole helper struct stored at once (l.cur = batch{}): every field of it is written
+		if gv := fieldOf(fa); gv != nil && groupField[gv] {
+			if gst, ok := gv.Type().Underlying().(*types.Struct); ok {
+				zero := false
+				if k, isK := e.Resolve(st, RV{fr, s.Val}).V.(*ssa.Const); isK && k.Value == nil {
+					zero = true
+				}
+				for i := 0; i < gst.NumFields(); i++ {
+					fv := gst.Field(i)
+					own, ok := promotedOwner[fv]
+					if !ok {
+						own = normType(types.TypeString(gv.Type(), shortQ))
+					}
+					val := "?"
+					if zero {
+						val = "zero"
+						if b, isB := fv.Type().Underlying().(*types.Basic); isB && b.Info()&types.IsNumeric != 0 {
+							val = "k0"
+						}
+					}
+					e.emit(st, Ev{Label: "fact", In: in, F: fr, Note: "set:" + own + "." + vname(fv) + "=" + val})
+				}
+				return
+			}
+		}
 		e.emit(st, Ev{Label: "fact", In: in, F: fr, Note: "set:" + q + "=" + latShape(e, st, RV{fr, s.Val}, 0)})
 	}
 	factsOf := func(p *Path, field string) []string {
